@@ -175,6 +175,9 @@ func runC05(c *Ctx) {
 	importRules(c, runC03, map[string]string{"C03.R1": "C05.R6", "C03.R2": "C05.R6", "C03.R3": "C05.R6", "C03.R4": "C05.R6", "C03.R8": "C05.R6"},
 		map[string]string{"C05.R6": "the compiled mask accepts no more than the mask says: escape table, stage order, pipe partition, expansions, suffix rewrite (shared with C03.R1-R4/R8); otherwise the pattern accepts URLs that need not contain the shortcut"})
 
+	importRules(c, runC17, map[string]string{"C17.R3": "C05.R9", "C17.R4": "C05.R9"},
+		map[string]string{"C05.R9": "the text the pattern is run on and the text the shortcut is searched in are the same capped URL up to letter case (shared with C17.R3/R4): a URL capped for one and not for the other fails the pre-check behind the cap"})
+
 	// ---------- R1 ----------
 	{
 		var masks []string
